@@ -60,13 +60,20 @@ RefYear(v) == IF "ry" \in DOMAIN v THEN v.ry ELSE 1972
 ShowsReference(cal, cd) == cd \in {"always", "critical"} \/ cal # "iso8601"
 FmtYearMonth(v, cd) == PadYear(v.y) \o "-" \o Pad2(v.m) \o (IF ShowsReference(v.cal, cd) THEN "-" \o Pad2(RefDay(v)) ELSE "") \o CalAnn(v.cal, cd)
 FmtMonthDay(v, cd) == (IF ShowsReference(v.cal, cd) THEN PadYear(RefYear(v)) \o "-" ELSE "") \o Pad2(v.m) \o "-" \o Pad2(v.d) \o CalAnn(v.cal, cd)
+\* truncation of the sub-second part / of an instant (towards the past) to precision p
+TruncSub(x, p) == IF p = -1 THEN x ELSE IF p = -2 THEN 0 ELSE (x \div Pow10I(9 - p)) * Pow10I(9 - p)
+FloorBig(b, p) == \* instant truncated (towards the past) to precision p
+  IF p = -1 \/ p = 9 THEN b
+  ELSE LET e == SplitEpoch(b)
+           s2 == IF p = -2 THEN (e.sod \div 60) * 60 ELSE e.sod
+       IN EpochNs(e.day, s2, TruncSub(e.sub, p), 0, 0)
 \* tz = <<>>: UTC with the Z designator; otherwise a fixed-offset zone whose offset is printed
 FmtInstant(b, p, tz) == LET off == IF tz = <<>> THEN 0 ELSE ZoneMinutes(tz)
                             w == WallOf(b, off)
                         IN FmtDate(w) \o "T" \o FmtTime(w, p) \o (IF tz = <<>> THEN "Z" ELSE Offset(off))
 \* offmin: the zone's offset at that instant (computed for fixed-offset zones, supplied for named ones)
 FmtZonedAt(v, offmin, p, od, zd, cd) ==
-  LET w == WallOf(v.ns, offmin)
+  LET w == WallOf(FloorBig(v.ns, p), offmin)      \* the instant is rounded first (RoundTemporalInstant), then read in the zone
   IN FmtDate(w) \o "T" \o FmtTime(w, p) \o (IF od = "never" THEN "" ELSE Offset(offmin)) \o TzAnn(ZoneText(v.tz), zd) \o CalAnn(v.cal, cd)
 FmtZoned(v, p, od, zd, cd) == FmtZonedAt(v, ZoneMinutes(v.tz), p, od, zd, cd)
 
@@ -126,15 +133,9 @@ DefaultOpts == [p |-> -1, su |-> "", cd |-> "auto", od |-> "auto", zd |-> "auto"
 OptsValid(ty, o) == o.p \in -1..9 /\ ~(ty = "Duration" /\ o.su = "minute")
 
 \* the value the printed text still determines (what a parse of it must return), or "lost" if the type cannot be read back
-TruncSub(x, p) == IF p = -1 THEN x ELSE IF p = -2 THEN 0 ELSE (x \div Pow10I(9 - p)) * Pow10I(9 - p)
 TruncTime(t, p) == LET x == TruncSub(SubNs(t), p) IN
                    [h |-> t.h, mi |-> t.mi, s |-> IF p = -2 THEN 0 ELSE t.s, ms |-> x \div 1000000, us |-> (x \div 1000) % 1000, ns |-> x % 1000]
 ShownCal(cal, cd) == IF cd = "never" THEN "iso8601" ELSE cal
-FloorBig(b, p) == \* instant truncated (towards the past) to precision p
-  IF p = -1 \/ p = 9 THEN b
-  ELSE LET e == SplitEpoch(b)
-           s2 == IF p = -2 THEN (e.sod \div 60) * 60 ELSE e.sod
-       IN EpochNs(e.day, s2, TruncSub(e.sub, p), 0, 0)
 Readback(ty, v, o) ==
   LET p == EffPrec(o.p, o.su) IN
   CASE ty = "PlainDate" -> [y |-> v.y, m |-> v.m, d |-> v.d, cal |-> ShownCal(v.cal, o.cd)]
